@@ -74,7 +74,12 @@ META = {
             "evaluated on 6 x 5 values; Filter with at least one filter lists exactly the tracked operations matching every filter (any filter list), "
             "independent of filter order, nothing without filters (and the refutation of 'no filter = all'); type+phase filters list only the status "
             "ToTrackerStatus gives. Suite optracker: the REAL OperationTracker driven by TrackNewOperation sequences, GetAll / Status / Filter "
-            "judged by a Spec written from the doc comments and compared with the model.",
+            "judged by a Spec written from the doc comments and compared with the model. "
+            "Round 8 final: the cluster-wide LISTING (globalPinInfoSlice) for ARBITRARY member lists, reply tables and errors (induction over members, "
+            "each reply, the unreachable members): every cell is exactly cluster_error (unreachable) / the member's last report for the CID / absent "
+            "(refused, non-member) - gs_cell; own-report and allocated clauses hold for every input, others-remote holds exactly when no non-allocated "
+            "member is unreachable or reports something else (gs_holds, refutation gs_others_remote_not_all = K04); holdsF (the fault clause list) "
+            "= its Prop reading (holdsF_iff).",
     "note": "Trusted: Lean kernel (+propext, Classical.choice, Quot.sound), hand-written model/spec, the Go harness with its scripted daemon and canned "
             "member replies. Known findings K02/K02f (Status says pin_error where StatusAll says unexpectedly_unpinned), K04 (unreachable member cluster_error for every "
             "listed CID), K06e/K06r (status remote with an error text after a failed housekeeping unpin) are reported as KNOWN-FINDING.",
